@@ -57,15 +57,25 @@ def sample_history(r: random.Random) -> list[dict]:
     return h
 
 
+def c14_unit(i: int) -> dict:
+    """Grid point i of C14: the uuid streams / listing orders of its
+    processes are fixed per data set, so the whole grid can be soaked."""
+    return {"kind": "c14", "idx": i, "hash_class": i % 16,
+            "uuid_seed": core.grid("c14-uuid", i) % 2**32}
+
+
 def build_units(prop, tier, seed, scale, findings):
     units = []
     r = random.Random(core.derive(seed, prop, "datasets"))
     if prop == "C14":
         n = scaled(SIZES[prop][tier], scale)
+        for f in findings:
+            if f["property"] == prop and f.get("status") == "known":
+                if "dataset" in f.get("key", {}):
+                    units.append(c14_unit(
+                        int(f["key"]["dataset"].split(":")[1])))
         for i in r.sample(range(N_DS[prop]), min(n, N_DS[prop])):
-            units.append({"kind": "c14", "idx": i, "hash_class": i % 16,
-                          "uuid_seed": core.derive(seed, prop, "uuid", i)
-                          % 2**32})
+            units.append(c14_unit(i))
         return units
     n_s, n_all = SIZES[prop][tier]
     n_s, n_all = scaled(n_s, scale), scaled(n_all, scale)
